@@ -96,6 +96,24 @@ func tokParse(text []byte) (res string) {
 	return tokResult(h, err)
 }
 
+func bytesOf(cs [][]byte) []byte {
+	var out []byte
+	for _, c := range cs {
+		out = append(out, c...)
+	}
+	return out
+}
+
+// emptyFirstReadBom: the predicate of known finding C17-empty-first-read-bom on the reads the reader delivers
+// (leading empty reads, then bytes that start with a byte order mark and go on)
+func emptyFirstReadBom(reads [][]byte) bool {
+	if len(reads) < 2 || len(reads[0]) != 0 {
+		return false
+	}
+	rest := bytesOf(reads)
+	return len(rest) > 3 && rest[0] == 0xEF && rest[1] == 0xBB && rest[2] == 0xBF
+}
+
 func chunksArg(cs [][]byte) string {
 	if len(cs) == 0 {
 		return "_"
@@ -157,6 +175,8 @@ func tokCases(d *lib.Driver, full bool, r *lib.Rng) error {
 		eof    bool
 		chunks [][]byte
 		impl   string
+		whole  string // the handler calls of the same bytes read in one piece ("" for Parse)
+		orig   [][]byte // the reads the reader was going to deliver (the run stops reading at an error)
 	}
 	var reqs []string
 	var all []tc
@@ -167,6 +187,16 @@ func tokCases(d *lib.Driver, full bool, r *lib.Rng) error {
 		}
 		for i, a := range ans {
 			m := modelTok(a)
+			// the property's clause on this level: a chunking must give what the whole read gives
+			if w := all[i].whole; w != "" && w != all[i].impl {
+				info := map[string]any{"tok_reader": true, "tok_eof_with_data": all[i].eof, "tok_chunks": chunksArg(all[i].chunks), "tok_all_reads": chunksArg(all[i].orig), "impl": all[i].impl, "whole": w, "model": m}
+				if emptyFirstReadBom(all[i].orig) && m == all[i].impl && lib.HasKnown(knownList, "C17-empty-first-read-bom") {
+					rep.Add(lib.Finding{Kind: "known", Class: "tok:empty-first-read-bom", KnownID: "C17-empty-first-read-bom",
+						What: "an empty first Read switches the byte-order-mark handling of Tokenizer.Load off (events differ from the whole read and equal the model's, which carries the deviation)", Replay: info})
+				} else {
+					add("violation", "tok:chunk-dependent-events", "the handler calls of oj.Tokenizer.Load under this chunking differ from those of the same bytes read in one piece", info)
+				}
+			}
 			if m != all[i].impl {
 				entry := "oj.Tokenizer.Parse"
 				if all[i].reader {
@@ -182,10 +212,13 @@ func tokCases(d *lib.Driver, full bool, r *lib.Rng) error {
 		return nil
 	}
 	one := func(reader, eof bool, chunks [][]byte) error {
-		var impl string
+		var impl, whole string
 		var given [][]byte
 		if reader {
 			impl, given = tokLoad(append([][]byte{}, chunks...), eof)
+			if len(chunks) > 1 { // the same bytes in one read (an error stops both at the same byte)
+				whole, _ = tokLoad([][]byte{bytesOf(chunks)}, false)
+			}
 		} else {
 			impl, given = tokParse(chunks[0]), chunks[:1]
 		}
@@ -193,7 +226,7 @@ func tokCases(d *lib.Driver, full bool, r *lib.Rng) error {
 		if reader {
 			rd = "1"
 		}
-		all = append(all, tc{reader, eof, given, impl})
+		all = append(all, tc{reader, eof, given, impl, whole, chunks})
 		reqs = append(reqs, "tok\t"+rd+"\t"+chunksArg(given))
 		if len(reqs) >= 1024 {
 			return flush()
@@ -246,6 +279,10 @@ func tokCases(d *lib.Driver, full bool, r *lib.Rng) error {
 		if err := text([]byte(s), 3); err != nil {
 			return err
 		}
+	}
+	// known finding C17-empty-first-read-bom, on every seed
+	if err := one(true, false, [][]byte{{}, []byte("\xef\xbb\xbf[1]")}); err != nil {
+		return err
 	}
 	rep.Exhaustive = append(rep.Exhaustive, "tokenizer events vs model: every 2-chunk split of the fixed texts of at most 14 bytes")
 	n := 150
